@@ -7,6 +7,11 @@
 //! page walks over GET /tasks/{id}/output, failure classes, cancels at random delays and at
 //! `task.emit.after_record` hits, file length at every publish (`task.emit.after_send`).
 //! Shell-tool oracle (c17_shell.rs): rip_tools::register_builtin_tools + ToolRunner::run.
+//! Pipe lifetime ≠ process lifetime: the child may start descendants (`emit::Tail`) that keep stdout and/or
+//! stderr open after it exited, write later (0 … 3.5 s), write to the other stream, write nothing, sit in
+//! their own session (escape the cancel's group kill); the child may give a pipe up early and keep running.
+//! Such cases are judged on the state left after the last descendant is gone: nothing after the terminal
+//! frame, terminal summary == stored log, stored log == what child + descendants wrote up to that frame.
 //! PTY mode is excluded (not runnable in this sandbox).
 
 #[path = "c17_emit.rs"]
@@ -26,7 +31,7 @@ use serde_json::{json, Value};
 
 pub use emit::emit_main;
 
-const N_DIRECTED: u64 = 12;
+const N_DIRECTED: u64 = 24;
 
 enum Case {
     Task(task::TaskCase),
@@ -63,6 +68,7 @@ fn base_task(idx: u64, label: &str, plan: emit::Plan) -> task::TaskCase {
         page_seed: idx,
         starve: false,
         force_page: None,
+        tails: Vec::new(),
     }
 }
 
@@ -82,6 +88,7 @@ fn base_shell(idx: u64, label: &str, plan: emit::Plan) -> shell::ShellCase {
         page_seed: idx,
         starve: false,
         force_page: None,
+        tails: Vec::new(),
     }
 }
 
@@ -166,6 +173,106 @@ fn directed(idx: u64) -> Case {
             c.cap = 1000;
             Case::Shell(c)
         }
+        // ---- pipe lifetime ≠ process lifetime (indexes chosen so that the slow ones spread over the shards)
+        // a descendant writes to both streams 3.5 s after the shell exited
+        12 => {
+            let mut c = base_task(idx, "descendant writes 5000 B stdout + 700 B stderr 3.5 s after the child exited", ascii_plan(&mut rng, 300, 2));
+            let (o, e) = (emit::gen_payload(&mut rng, emit::Content::Ascii, 5000), emit::gen_payload(&mut rng, emit::Content::Ascii, 700));
+            c.tails = vec![emit::Tail::writer(3500, o, e)];
+            Case::Task(c)
+        }
+        // a descendant holds both pipes for 2.5 s and writes nothing
+        13 => {
+            let mut c = base_task(idx, "descendant holds stdout+stderr open for 2.5 s, writes nothing", ascii_plan(&mut rng, 300, 2));
+            c.tails = vec![emit::Tail::holder(2500, true, true)];
+            Case::Task(c)
+        }
+        // cancel while child + descendant are alive; the descendant sits in its own session, survives the kill, writes later
+        14 => {
+            let mut p = ascii_plan(&mut rng, 300, 2);
+            p.linger_ms = 3000;
+            let mut c = base_task(idx, "cancel 200 ms after the child started a descendant in its own session that writes 2.5 s later", p);
+            let mut t = emit::Tail::writer(2500, emit::gen_payload(&mut rng, emit::Content::Ascii, 4000), Vec::new());
+            t.setsid = true;
+            c.tails = vec![t];
+            c.cancel = task::Cancel::AfterTailsSpawned(200);
+            Case::Task(c)
+        }
+        // the descendant keeps only stdout and writes there after 1.2 s
+        15 => {
+            let mut c = base_task(idx, "descendant keeps only stdout, writes 9000 B there 1.2 s after the child exited", ascii_plan(&mut rng, 300, 2));
+            let mut t = emit::Tail::writer(1200, emit::gen_payload(&mut rng, emit::Content::Utf8, 9000), Vec::new());
+            t.keep_err = false;
+            c.tails = vec![t];
+            Case::Task(c)
+        }
+        16 => {
+            let mut c = base_task(idx, "descendant writes 100 B stdout 0.2 s after the child exited", ascii_plan(&mut rng, 8193, 2));
+            c.tails = vec![emit::Tail::writer(200, emit::gen_payload(&mut rng, emit::Content::Ascii, 100), Vec::new())];
+            Case::Task(c)
+        }
+        // the child only ever wrote stdout; the descendant writes to the other stream
+        17 => {
+            let mut p = ascii_plan(&mut rng, 1000, 2);
+            p.err = Vec::new();
+            p.ops.retain(|o| o.0 == 1);
+            let mut c = base_task(idx, "child writes stdout only, descendant writes 3000 B stderr 0.8 s later", p);
+            c.tails = vec![emit::Tail::writer(800, Vec::new(), emit::gen_payload(&mut rng, emit::Content::Ascii, 3000))];
+            Case::Task(c)
+        }
+        // two descendants: a silent holder of stdout, a stderr-only writer; cancel while only they are alive
+        18 => {
+            let mut c = base_task(idx, "two descendants (stdout holder 0.8 s, stderr-only writer 0.4 s); cancel 150 ms after the child exited", ascii_plan(&mut rng, 300, 2));
+            let mut w = emit::Tail::writer(400, Vec::new(), emit::gen_payload(&mut rng, emit::Content::Ascii, 2000));
+            w.keep_out = false;
+            c.tails = vec![emit::Tail::holder(800, true, false), w];
+            c.cancel = task::Cancel::AfterChildExit(150);
+            Case::Task(c)
+        }
+        // the child gives stdout up early and keeps running (writes stderr for another 1.2 s)
+        19 => {
+            let out = emit::gen_payload(&mut rng, emit::Content::Ascii, 2000);
+            let err = emit::gen_payload(&mut rng, emit::Content::Ascii, 300);
+            let p = emit::Plan {
+                out,
+                err,
+                ops: vec![(1, 2000, 0), (11, 0, 0), (2, 100, 400_000), (2, 100, 400_000), (2, 100, 400_000)],
+                exit: 3,
+                linger_ms: 0,
+                shape: "directed-closes-stdout-early".into(),
+            };
+            Case::Task(base_task(idx, "child closes stdout after 2000 B and keeps writing stderr for 1.2 s", p))
+        }
+        // cancel while child + descendant are alive, same process group: the kill reaches both
+        20 => {
+            let mut p = ascii_plan(&mut rng, 300, 2);
+            p.linger_ms = 3000;
+            let mut c = base_task(idx, "cancel 200 ms after the child started a descendant (same process group) that would write 1.5 s later", p);
+            c.tails = vec![emit::Tail::writer(1500, emit::gen_payload(&mut rng, emit::Content::Ascii, 4000), Vec::new())];
+            c.cancel = task::Cancel::AfterTailsSpawned(200);
+            Case::Task(c)
+        }
+        // foreground shell tool with a background writer (`cmd &`)
+        21 => {
+            let mut c = base_shell(idx, "bash tool: descendant writes 5000 B stdout 0.8 s after the child exited (preview 16)", ascii_plan(&mut rng, 300, 2));
+            c.tails = vec![emit::Tail::writer(800, emit::gen_payload(&mut rng, emit::Content::Ascii, 5000), Vec::new())];
+            Case::Shell(c)
+        }
+        // descendant writes at once (races the child's exit)
+        22 => {
+            let mut c = base_task(idx, "descendant writes 20000 B stdout + 100 B stderr immediately", ascii_plan(&mut rng, 300, 2));
+            let (o, e) = (emit::gen_payload(&mut rng, emit::Content::Binary, 20_000), emit::gen_payload(&mut rng, emit::Content::Ascii, 100));
+            c.tails = vec![emit::Tail::writer(0, o, e)];
+            Case::Task(c)
+        }
+        23 => {
+            let mut c = base_shell(idx, "bash tool: stdout holder 0.6 s + descendant writing 3000 B stderr after 1.2 s (preview 100)", ascii_plan(&mut rng, 300, 2));
+            c.cfg_limit = 100;
+            let mut w = emit::Tail::writer(1200, Vec::new(), emit::gen_payload(&mut rng, emit::Content::Utf8, 3000));
+            w.keep_out = false;
+            c.tails = vec![emit::Tail::holder(600, true, false), w];
+            Case::Shell(c)
+        }
         // empty command output, exit code
         _ => {
             let mut p = ascii_plan(&mut rng, 0, 1);
@@ -204,7 +311,9 @@ pub fn run(cfg: &Cfg) -> i32 {
         "seeded cases, half background tasks through the real router (pipes), half foreground bash/shell tool calls; the child \
          is `rv emit` writing generator-chosen bytes (ASCII / multi-byte text split across writes / binary with NUL and invalid \
          UTF-8 / empty; sizes around the preview limit, 8192/8193 and the artifact cap; chosen write sizes, pauses, exit code) \
-         plus 12 directed cases; cancels at random delays and at task.emit.after_record hits; random page walks; a case is \
+         plus 24 directed cases (12 of them: descendants that outlive the child on its pipes — late writers after 0 … 3.5 s, \
+         silent holders, other-stream writers, own-session descendants under cancel, child giving a pipe up early; ~1 in 90 \
+         random cases gets seeded descendants too); cancels at random delays and at task.emit.after_record hits; random page walks; a case is \
          non-trivial when the child wrote at least one byte; distinct = content class × write style × size-vs-boundary \
          buckets × limits × cancel/attach plan × terminal status × page style",
     );
